@@ -43,6 +43,23 @@ V("RL8-unprotected-second-open", "C20", "RL8",
    "                    self._index_file = open(self._index_file_path, \"rb\")\n"))
 V("RL7-close-callers-stream", "C20", "RL7",
   ("tdmsinfo.py", "    tdms_file = TdmsFile.read_metadata(file)\n", "    tdms_file = TdmsFile.read_metadata(file)\n    if hasattr(file, 'close'):\n        file.close()\n"))
+_CM_OLD = ("        try:\n            self._read_file(\n                self._reader,\n                read_metadata_only if not self._reader.is_index_file_only() else True,\n"
+           "                keep_open\n            )\n        finally:\n            if not keep_open:\n                self._reader.close()\n")
+_CM_NEW = ("        with _closing_unless(self._reader, keep_open):\n            self._read_file(\n                self._reader,\n"
+           "                read_metadata_only if not self._reader.is_index_file_only() else True,\n                keep_open\n            )\n")
+_CM_IMPORT = ("from collections import defaultdict, OrderedDict\n", "from collections import defaultdict, OrderedDict\nfrom contextlib import contextmanager\n")
+V("RL2-benign-generator-context-manager", "C20", None,
+  ("tdms.py", _CM_OLD, _CM_NEW), ("tdms.py",) + _CM_IMPORT,
+  ("tdms.py", "class TdmsGroup(object):", "@contextmanager\ndef _closing_unless(reader, keep_open):\n    try:\n        yield reader\n    finally:\n"
+   "        if not keep_open:\n            reader.close()\n\n\nclass TdmsGroup(object):"))
+V("RL2-generator-context-manager-without-finally", "C20", "RL2",
+  ("tdms.py", _CM_OLD, _CM_NEW), ("tdms.py",) + _CM_IMPORT,
+  ("tdms.py", "class TdmsGroup(object):", "@contextmanager\ndef _closing_unless(reader, keep_open):\n    yield reader\n"
+   "    if not keep_open:\n        reader.close()\n\n\nclass TdmsGroup(object):"))
+V("RL2-generator-context-manager-closes-when-kept-open", "C20", "RL2",
+  ("tdms.py", _CM_OLD, _CM_NEW), ("tdms.py",) + _CM_IMPORT,
+  ("tdms.py", "class TdmsGroup(object):", "@contextmanager\ndef _closing_unless(reader, keep_open):\n    try:\n        yield reader\n    finally:\n"
+   "        if keep_open:\n            reader.close()\n\n\nclass TdmsGroup(object):"))
 V("RL-benign-close-helper", "C20", None,
   ("tdms.py", "        if self._reader is not None:\n            self._reader.close()\n            self._reader = None\n",
    "        reader = self._reader\n        if self._reader is not None:\n            self._reader.close()\n            self._reader = None\n        del reader\n"))
